@@ -22,8 +22,9 @@ pub struct Piece {
 
 /// A DEFAULT that names an enumeration item keeps the ASN.1 spelling of the item in the generator's
 /// model and has the Rust spelling after the round trip through the generated code; both denote the
-/// same variant, so the item name is compared in its Rust spelling.
-fn strip_tags(s: &str) -> String {
+/// same variant, so the item name of the generator's model is put into its Rust spelling (once: the
+/// mapping is not idempotent, `a-b` -> `AB` -> `Ab`) and the re-parsed one is taken as it is.
+fn default_items_in_rust_spelling(s: &str) -> String {
     let mut out = String::new();
     let mut rest = s;
     while let Some(p) = rest.find("EnumeratedVariant(\"") {
@@ -252,6 +253,10 @@ pub fn expected_consts(m: &Module, def: &Def) -> Vec<(String, String, String, St
                         Lit::Int(i) => Some(format!("&{i}")),
                         Lit::Bool(b) => Some(format!("&{b}")),
                         Lit::Str(s) if !s.contains(' ') => Some(format!("{s:?}")),
+                        Lit::Enum(item) => match &c.ty {
+                            Ty::Ref(r) => Some(format!("&{}::{}", r, camel(item))),
+                            _ => None,
+                        },
                         _ => None,
                     };
                     if let Some(v) = v {
@@ -310,8 +315,8 @@ pub fn check_case(label: &str, module: Option<&Module>, text: &str) -> Vec<Failu
         out.push(mk(format!("definition-count.{ctx}"), format!("{} definitions", original.len()), format!("{} items with #[asn]", pieces.len())));
     }
     for (o, p) in original.iter().zip(pieces.iter()) {
-        let want = effective_tuple_tag(&strip_tags(o));
-        let mut got = effective_tuple_tag(&strip_tags(&p.reparsed));
+        let want = effective_tuple_tag(&default_items_in_rust_spelling(o));
+        let mut got = effective_tuple_tag(&p.reparsed);
         if o.contains("DataEnum") {
             // the macro's derived tag of an untagged CHOICE is exempt: only the CHOICE's OWN tag (the last
             // tag field of the rendering), and only where the generator's model has none
@@ -464,6 +469,30 @@ pub fn run(args: &Args) -> ! {
             let mut m = Module::new("Shapes");
             m.defs.push(Def { name: "T".into(), tag: None, ty });
             cases.push((format!("shape/{name}"), Some(m.clone()), m.asn()));
+        }
+    }
+    // names that differ only in case or in a hyphen (distinct in ASN.1 and in Rust): as the item / alternative
+    // the extension marker follows, and as the item a DEFAULT names
+    for (si, set) in [["abc", "abC", "d"], ["ab", "a-b", "c"], ["fooBar", "foobar", "x"], ["type-a-b", "type-ab", "z"]].iter().enumerate() {
+        let orders: [[usize; 3]; 6] = [[0, 1, 2], [0, 2, 1], [1, 0, 2], [1, 2, 0], [2, 0, 1], [2, 1, 0]];
+        for (oi, o) in orders.iter().enumerate() {
+            let names: Vec<String> = o.iter().map(|i| set[*i].to_string()).collect();
+            for ext in [None, Some(1usize), Some(2), Some(3)] {
+                let e = ext.map_or("none".to_string(), |k| k.to_string());
+                let mut m = Module::new("Names");
+                let (root, add) = names.split_at(ext.unwrap_or(3));
+                m.defs.push(Def { name: "T".into(), tag: None, ty: Ty::Enum { root: root.iter().map(|n| (n.clone(), None)).collect(), ext: ext.map(|_| add.iter().map(|n| (n.clone(), None)).collect()) } });
+                cases.push((format!("names/enumerated/{si}.{oi}.{e}"), Some(m.clone()), m.asn()));
+                let mut m = Module::new("Names");
+                m.defs.push(Def { name: "T".into(), tag: None, ty: Ty::Choice { alts: names.iter().map(|n| Alt::new(n, Ty::Bool)).collect(), ext_after: ext } });
+                cases.push((format!("names/choice/{si}.{oi}.{e}"), Some(m.clone()), m.asn()));
+            }
+            for d in 0..3 {
+                let mut m = Module::new("Names");
+                m.defs.push(Def { name: "Kind".into(), tag: None, ty: Ty::Enum { root: names.iter().map(|n| (n.clone(), None)).collect(), ext: None } });
+                m.defs.push(Def { name: "T".into(), tag: None, ty: Ty::seq(vec![Comp::new("kind", Ty::r("Kind")).default(Lit::Enum(names[d].clone())), Comp::new("z", Ty::Bool)]) });
+                cases.push((format!("names/default-item/{si}.{oi}.{d}"), Some(m.clone()), m.asn()));
+            }
         }
     }
     let corpus = repo_corpus();
